@@ -78,7 +78,8 @@ def make_pool():
         e['Bag']([1]), e['Bag'](['a']), e['Bag'](), e['Table']({'a': 1}), e['Table']({'a': e['Bag']([1])}),
         e['Table']({'a': e['Bag'](['x'])}), e['Table']({1: [e['Bag'](['s'])]}), e['Table']({1: [e['Bag']([1])]}),
         e['PairL']([e['Bag'](['a'])]), e['PairL']([e['Bag']([1])]), e['Scores']({1: 'a'}), e['Scores']({'a': 1}),
-        e['Scores']({1: 1}), e['Table']({1: 'a'}),
+        e['Scores']({1: 1}), e['Table']({1: 'a'}), e['IntsT']([1]), e['IntsT'](['a']), e['TaggedInts'](['a']), e['TaggedInts']([2]),
+        e['TableT']({'a': 1}), e['TableT']({'a': 'b'}),
         int, str, bool, float, A, B, C, D, Col, type, object, list, dict, e['IntSub'],
         len, fn, gen(), iter([1]), iter(()), object(), lambda: 0,
     ]
@@ -198,11 +199,16 @@ def cls_values():
             'set': [set(), {1, 'a'}], 'frozenset': [frozenset(), frozenset({1})],
             'type': [int, A, type, Col],
             'Hashable': [1, 'a', (1,), None, A()], 'Sized': [[], 'ab', {1: 2}, e['WithFooLen']()],
+            'SupportsInt': [1, 1.5, True, e['IntSub'](2)], 'SupportsIndex': [1, True, e['IntSub'](2)],
+            'SupportsAbs': [1, -1.5, 1j], 'MappingView': [{1: 2}.keys(), {}.values(), {1: 2}.items()],
+            'RePatternStr': [e['_re'].compile('a'), e['_re'].compile(b'b')], 'ReMatchStr': [e['_re'].match('a', 'a')],
+            'PathLikeStr': [e['_pathlib'].PurePosixPath('a')], 'CtxMgrInt': [e['WithCtx']()],
         }
     return _CLS_VALUES
 
 
 _UNHASHABLE_CLS = {'list', 'dict', 'set'}
+_ALIAS_RUNTIME_CLS = {'RePatternStr', 'ReMatchStr', 'PathLikeStr', 'CtxMgrInt'}
 
 
 class Cls(Node):
@@ -218,6 +224,11 @@ class Cls(Node):
 
     def _types(self, cx):
         c = lookup(self.name)
+        if self.name in _ALIAS_RUNTIME_CLS:
+            # a name bound to a subscripted standard-library hint checked by its origin class only
+            import contextlib, os, re
+            c = {'RePatternStr': re.Pattern, 'ReMatchStr': re.Match, 'PathLikeStr': os.PathLike,
+                 'CtxMgrInt': contextlib.AbstractContextManager}[self.name]
         if cx.tower:
             if c is float:
                 return (float, int)
@@ -742,6 +753,10 @@ class ShallowH(Node):
         'Callable': (cabc.Callable, 'Callable[[{0}], {1}]', 2),
         'CallableEllipsis': (cabc.Callable, 'Callable[..., {0}]', 1),
         'ItemsView': (cabc.ItemsView, 'ItemsView[{0}, {1}]', 2),
+        'KeysView': (cabc.KeysView, 'KeysView[{0}]', 1),
+        'ValuesView': (cabc.ValuesView, 'ValuesView[{0}]', 1),
+        'Coroutine': (cabc.Coroutine, 'Coroutine[None, None, {0}]', 1),
+        'AsyncGenerator': (cabc.AsyncGenerator, 'AsyncGenerator[{0}, None]', 1),
     }
 
     def __init__(self, form, children):
@@ -761,6 +776,8 @@ class ShallowH(Node):
         if self.form == 'ItemsView':
             k, v = self.children
             return all(k.full(a, cx) and v.full(b, cx) for a, b in x)
+        if self.form in ('KeysView', 'ValuesView'):
+            return all(self.children[0].full(a, cx) for a in x)
         return True
 
     def possible(self, x, cx=CX0):
@@ -773,10 +790,22 @@ class ShallowH(Node):
             if f == 'Generator' or rng.random() < .5:
                 return (i for i in items)
             return iter(items)
-        if f == 'AsyncIterator':
+        if f in ('AsyncIterator', 'AsyncGenerator'):
             async def agen():
                 yield 1
             return agen()
+        if f == 'Coroutine':
+            class Co(cabc.Coroutine):
+                def send(self, v): raise StopIteration
+                def throw(self, *a): raise StopIteration
+                def close(self): pass
+                def __await__(self): return iter(())
+            return Co()
+        if f in ('KeysView', 'ValuesView'):
+            n = size_pick(rng, max(depth, 1))
+            if f == 'KeysView':
+                return dict.fromkeys(_hashables(self.children[0], rng, cx, depth, n)).keys()
+            return {i: self.children[0].gen_in(rng, cx, depth + 1) for i in range(n)}.values()
         if f == 'Awaitable':
             class Aw:
                 def __await__(self):
@@ -1130,6 +1159,13 @@ def named_nodes():
                        gen=lambda rng, cx, d: e['PairL']([bag(S).gen_in(rng, cx, d + 1) for _ in range(size_pick(rng, d))])),
         lambda: NamedH('Scores', 'generic:dict2-subclass-bounded-typevars', isinst='Scores', items=('map', I, S),
                        gen=lambda rng, cx, d: e['Scores']({i: 's%d' % i for i in range(size_pick(rng, d))})),
+        # several bases: constraining builtin generic + user-defined generic mixin, in both orders
+        lambda: NamedH('IntsT', 'generic:multi-base', isinst='IntsT', items=('seq', I),
+                       gen=lambda rng, cx, d: e['IntsT']([rng.randint(0, 9) for _ in range(size_pick(rng, d))])),
+        lambda: NamedH('TaggedInts', 'generic:multi-base', isinst='TaggedInts', items=('seq', I),
+                       gen=lambda rng, cx, d: e['TaggedInts']([rng.randint(0, 9) for _ in range(size_pick(rng, d))])),
+        lambda: NamedH('TableT', 'generic:multi-base', isinst='TableT', items=('map', S, I),
+                       gen=lambda rng, cx, d: e['TableT']({'k%d' % i: i for i in range(size_pick(rng, d))})),
     ]
 
 
@@ -1210,7 +1246,9 @@ def _safe_eq(a, b):
 # random hint generator
 # ---------------------------------------------------------------------------
 _LEAF_CLASSES = ['int', 'str', 'bool', 'float', 'complex', 'bytes', 'A', 'B', 'C', 'D', 'Col',
-                 'IntSub', 'list', 'dict', 'tuple', 'set', 'frozenset', 'type', 'Hashable', 'Sized']
+                 'IntSub', 'list', 'dict', 'tuple', 'set', 'frozenset', 'type', 'Hashable', 'Sized',
+                 'SupportsInt', 'SupportsIndex', 'SupportsAbs', 'MappingView', 'RePatternStr', 'ReMatchStr', 'PathLikeStr',
+                 'CtxMgrInt']
 _HASHABLE_LEAF = ['int', 'str', 'bool', 'float', 'bytes', 'A', 'B', 'Col', 'IntSub', 'tuple', 'frozenset', 'Hashable']
 _LITERAL_SRCS = ['0', '1', '2', '-1', 'True', 'False', "'a'", "'bc'", "''", "b'x'", 'None',
                  'Col.RED', 'Col.GREEN']
@@ -1265,7 +1303,7 @@ def gen_hint(rng, depth=3, hashable=False, allow_any=True, top=True):
     if r < .88 and not hashable:
         f = rng.choice(list(ShallowH.FORMS))
         ar = ShallowH.FORMS[f][2]
-        kids = [sub(hashable=(f == 'ItemsView' and i == 0)) for i in range(ar)]
+        kids = [sub(hashable=(f in ('ItemsView', 'KeysView') and i == 0)) for i in range(ar)]
         return ShallowH(f, kids)
     # Annotated
     child = sub(hashable=hashable)
